@@ -66,8 +66,8 @@ def bound(tier, level, sym, m):
         if nu <= 1:
             return 6 if th else 3
         if sym == "U1xU1":
-            return 3
-        return 2
+            return 3 if th else 2
+        return 2 if th else 1
     if m == 4:
         if nu <= 1:
             return 2
